@@ -929,6 +929,7 @@ struct Symboliser
 {
     std::map<void*, std::vector<Frame> > cache;     // one address -> inlined frames, innermost first
     std::map<void*, std::string>         module;
+    std::map<void*, std::string>         where;                 // module+offset of the looked-up pc
     int                                  mismatches = 0;        // answers != questions: names cannot be trusted
 
     static std::string demangle(const char* n)
@@ -953,6 +954,12 @@ struct Symboliser
             void* const pc = (void*)((uintptr_t)a - 1);
             if (dladdr(pc, &di) == 0 || di.dli_fname == 0) { cache[a] = std::vector<Frame>(1, Frame{ "??", "" }); module[a] = "?"; continue; }
             module[a] = di.dli_fname;
+            {
+                const char* b = strrchr(di.dli_fname, '/');
+                char w[300];
+                snprintf(w, sizeof w, "%s+0x%llx", b ? b + 1 : di.dli_fname, (unsigned long long)((uintptr_t)pc - (uintptr_t)di.dli_fbase));
+                where[a] = w;
+            }
             char line[1200];
             snprintf(line, sizeof line, "\"%s\" 0x%llx\n", di.dli_fname, (unsigned long long)((uintptr_t)pc - (uintptr_t)di.dli_fbase));
             req += line;
@@ -966,7 +973,8 @@ struct Symboliser
         if (fd < 0) return;
         if (write(fd, req.data(), req.size()) != (ssize_t)req.size()) {}
         close(fd);
-        const std::string cmd = std::string("ASAN_OPTIONS= llvm-symbolizer --inlines --demangle --functions=linkage < ") + inName + " 2>/dev/null";
+        std::string cmd = std::string("ASAN_OPTIONS= llvm-symbolizer --inlines --demangle --functions=linkage < ") + inName + " 2>/dev/null";
+        if (getenv("C19_SYMDEBUG")) cmd += std::string(" | tee ") + getenv("C19_SYMDEBUG") + ".out; cp " + inName + " " + getenv("C19_SYMDEBUG") + ".in";
         FILE* p = popen(cmd.c_str(), "r");
         if (p != 0)
         {
@@ -1221,6 +1229,7 @@ std::string renderStack(Symboliser& sy, const std::vector<void*>& bt, bool withL
             o += head;
             o += withLoc ? fr[j].fn : shortName(fr[j].fn);
             if (withLoc && !fr[j].loc.empty()) o += "  " + fr[j].loc;
+            if (withLoc && j + 1 == fr.size()) o += "  (" + sy.where[bt[i]] + ")";
             if (j + 1 < fr.size()) o += "  [inlined]";
             o += "\n";
         }
